@@ -1,13 +1,14 @@
 SPECIFICATION Spec
 CONSTANTS
   Addrs <- A3
-  Amts <- Amt012
+  Amts <- Amt01
   Cap = 100
   MaxLen = 3
   MaxTime = 5
   RawOps = TRUE
-  IOAmts <- IO2
+  IOAmts <- IO1
   Genesis <- Gen1
 VIEW View
 INVARIANTS SupplyEq BalanceWellFormed SupplyWellFormed HolderHasAccount NumsUnique
+PROPERTIES OnlyMintBurnChangeSupply TransferNeutral MintBurnExact FailedChangesNothing AccountsStable
 ACTION_CONSTRAINT EmitEdge
